@@ -206,6 +206,9 @@ def explore(sysm, *, state_cap=200000, depth_cap=None, keep_states=False, max_vi
                                             hist=_hist(parents, idx) + [ev],
                                         )
                                     )
+            if not keep_states:
+                for i in frontier:  # expanded states are never needed again (history lives in `parents`)
+                    snaps[i] = None
             frontier = nxt
             depth += 1
             if len(snaps) > state_cap:
